@@ -69,6 +69,12 @@ def e2e_oracle(chk, r):
     if abs(sr["max_hp_eft"]["value"] - r["resim_max"]) > TOL or abs(sr["min_hp_eft"]["value"] - r["resim_min"]) > TOL:
         chk.violation("summary", r["cfg"], {"reported": [sr["max_hp_eft"]["value"], sr["min_hp_eft"]["value"]], "resimulated_at_reported_height": [r["resim_max"], r["resim_min"]], "H": H},
                       "reported max/min EFT are those of the reported field at the reported height (within 1e-3)")
+    ref = r.get("reference")
+    # 1e-2 K here: the reference builds its hybrid loads at the maximum height; a design clamped at the minimum height carries loads built
+    # there, and the peak durations move the extremes by a few 1e-3 K (the 1e-3 K comparison above is made on the returned object itself)
+    if ref is not None and (abs(sr["max_hp_eft"]["value"] - ref["max"]) > 1e-2 or abs(sr["min_hp_eft"]["value"] - ref["min"]) > 1e-2):
+        chk.violation("summary", r["cfg"], {"reported": [sr["max_hp_eft"]["value"], sr["min_hp_eft"]["value"]], "from_the_requested_inputs": [ref["max"], ref["min"]], "H": H},
+                      "reported max/min EFT are those of the reported field at the reported height, simulated with the requested inputs (within 1e-2)")
     lim = r["limits"]
     for row in js["design_selection_search_log"]["data"]:
         name, exc, mx, mn = row
